@@ -272,6 +272,10 @@ def uniform(rnd, spec):
     return True
 
 
+class SpecMismatch(Exception):
+    """a component does not hold what it was built from"""
+
+
 def build(fl, spec, route=None):
     """route: how the engine comes into being (all must give the same engine): plain constructors; components from the
     factories + configure(parameters); through its FLL text; through its Python representation; operators given by name to
@@ -375,7 +379,11 @@ def _build(fl, spec, route):
             op = lambda k: (fm.tnorm if k != "disjunction" else fm.snorm).construct(rb[k]) if rb[k] else None  # noqa: E731
         else:
             op = lambda k: getattr(fl, rb[k])() if rb[k] else None  # noqa: E731
-        e.rule_blocks.append(fl.RuleBlock(rb["name"], rb["description"], rb["enabled"], op("conjunction"), op("disjunction"), op("implication"), getattr(fl, a["cls"])(*a.get("args", ())) if a else None, rules))
+        # (the rules as a list, a tuple, or a one-shot iterable - the parameter is an iterable of rules)
+        given = [rules, rules, tuple(rules), iter(rules), (r for r in rules)][(len(rules) + len(rb["name"]) + len(spec["inputs"])) % 5] if spec.get("rule_containers") else rules
+        e.rule_blocks.append(fl.RuleBlock(rb["name"], rb["description"], rb["enabled"], op("conjunction"), op("disjunction"), op("implication"), getattr(fl, a["cls"])(*a.get("args", ())) if a else None, given))
+        if len(e.rule_blocks[-1].rules) != len(rules) or any(x is not y for x, y in zip(e.rule_blocks[-1].rules, rules)):
+            raise SpecMismatch(f"a rule block built from {len(rules)} rules holds {len(e.rule_blocks[-1].rules)}")
     for v in e.variables:
         for t in v.terms:
             t.update_reference(e)
